@@ -29,6 +29,10 @@ def gen_tokens(rng):
             toks.append(rng.choice(["Cresc=2", "Decresc=3", "Cresc=%d" % rng.randint(1, 4)]) + "\0" if rng.random() < 0.5 else rng.choice(["Cresc=2;", "Decresc=3;"]))
             toks.append(rng.choice([")", "(", ") c", "( d"]))
         if rng.random() < 0.05:
+            # a hexadecimal SysEx list ends where its commas end: a note a–f or a command A–F after it is not another byte
+            toks.append(rng.choice(["SysEx$=F0,7E,7F,09,01,F7", "SysEx$=f0,41,10,42,12,40,00,7f,00,41,f7", "SysEx$=F0,7E,7F,09,01,F7;"]))
+            toks.append(rng.choice(["c", "d8", "e", "a b", "f#8", "CH(2) c", "b4"]))
+        if rng.random() < 0.05:
             # string macros defined on lines of their own and compared as texts: equality is a matter of the characters, not of where
             # a definition stands
             if rng.random() < 0.5: toks += ["#SA={c}", "#SB={%s}" % rng.choice(["c", "c", "d"]), "IF(#SA=#SB){ c }ELSE{ e }"]
